@@ -26,7 +26,7 @@ LEVEL = "fault_enumeration"
 RULE = (
     "Hypothesis draws a cache-writing workload (create a catalog; overwrite a complete catalog with/without trees; first open that computes "
     "patch metadata; build trees; rebuild trees with other edges of the same count / other count / other closed side / binned<->unbinned / "
-    "force; a whole crosscorrelate; CorrFunc.to_file and CorrData.to_files onto a free path or onto an older, different product) with small "
+    "force (same binning, other edges, other closed side); a whole crosscorrelate; CorrFunc.to_file and CorrData.to_files onto a free path or onto an older, different product) with small "
     "generated inputs. The workload is traced (strace) to enumerate its file-system syscalls on the cache paths (openat, write, pwrite64, "
     "mkdir, unlink(at), rmdir, rename*, ftruncate) and then killed with SIGKILL on entry of every one of them -- i.e. at every point between "
     "two file-system operations, each exactly once. Oracle per distinct surviving tree: Catalog(path) raises or holds a complete record set "
@@ -40,7 +40,7 @@ ASSUMPTIONS = [
     "the oracle runs in an isolated child: an interpreter crash or hang while using the surviving state is a violation",
 ]
 
-WORKLOADS = ["create", "overwrite", "overwrite_trees", "meta", "trees", "retrees_edges", "retrees_count", "retrees_closed", "retrees_unbinned", "retrees_binned", "retrees_force", "retrees_twice", "measure", "corrfunc_new", "corrfunc_over", "corrdata_new", "corrdata_over"]
+WORKLOADS = ["create", "overwrite", "overwrite_trees", "meta", "trees", "retrees_edges", "retrees_count", "retrees_closed", "retrees_unbinned", "retrees_binned", "retrees_force", "retrees_force_edges", "retrees_force_closed", "retrees_twice", "measure", "corrfunc_new", "corrfunc_over", "corrdata_new", "corrdata_over"]
 
 
 @st.composite
@@ -65,7 +65,7 @@ def case_strategy(draw, workloads=WORKLOADS):
     case["K_old"] = draw(st.integers(1, K))
     case["chunksize"] = draw(st.sampled_from([None, None, 2, 3]))
     case["edges_a"] = [0.1, 0.4, 0.7, 1.0]
-    case["edges_b"] = {"retrees_edges": [0.1, 0.5, 0.8, 1.0], "retrees_count": [0.1, 0.4, 1.0], "overwrite_trees": [0.1, 0.4, 0.7, 1.0]}.get(wl, [0.1, 0.55, 1.0])
+    case["edges_b"] = {"retrees_edges": [0.1, 0.5, 0.8, 1.0], "retrees_force_edges": [0.1, 0.5, 0.8, 1.0], "retrees_count": [0.1, 0.4, 1.0], "overwrite_trees": [0.1, 0.4, 0.7, 1.0]}.get(wl, [0.1, 0.55, 1.0])
     case["closed_a"] = draw(gen.closed_strategy)
     case["prefix"] = draw(st.sampled_from(["nz_z0.2-1.4", "product", "result.v2", "product"]))  # file-name stems with and without dots
     if wl.startswith("corr"):
@@ -234,6 +234,11 @@ def run_case(case):
                 Catalog(cat_path, max_workers=1).build_trees(case["edges_a"], closed=closed_a, max_workers=1)
             elif wl == "retrees_force":
                 Catalog(cat_path, max_workers=1).build_trees(case["edges_a"], closed=closed_a, force=True, max_workers=1)
+            elif wl == "retrees_force_edges":
+                # forced rebuild for *another* binning: the forced path must invalidate the old label too
+                Catalog(cat_path, max_workers=1).build_trees(case["edges_b"], closed=closed_a, force=True, max_workers=1)
+            elif wl == "retrees_force_closed":
+                Catalog(cat_path, max_workers=1).build_trees(case["edges_a"], closed=flip(closed_a), force=True, max_workers=1)
             elif wl == "retrees_twice":
                 # phase 1: rebuild for the other binning; phase 2 (after the first crash): back again
                 edges = case["edges_b"] if phase[0] == 1 else case["edges_a"]
